@@ -25,8 +25,9 @@ def filt_inv(repo_src, dst):
     f = extract.Filter(repo_src, dst)
     f.check_macros()
     ren = [('Goldilocks::fromU64', 'Goldilocks_fromU64'), ('Goldilocks::toU64', 'Goldilocks_toU64'), ('Goldilocks::sub', 'Goldilocks_sub'), ('Goldilocks::mul', 'Goldilocks_mul'), ('Goldilocks::isZero', 'Goldilocks_isZero')]
-    rules = [(r'Goldilocks::(fromU64|toU64|sub|mul|isZero)\(', r'Goldilocks_\1('), (r'\bElement\b', 'GElement'), (r'\(GElement &result, const GElement &in1\)', '(GElement *result, const GElement *in1)'),
-             (r'Goldilocks_isZero\(in1\)', 'Goldilocks_isZero(*in1)'), (r'Goldilocks_toU64\(in1\)', 'Goldilocks_toU64(*in1)'), (r'Goldilocks_fromU64\(result, t\);', '*result = Goldilocks_fromU64(t);'),
+    rules = [(r'Goldilocks::(fromU64|toU64|sub|mul|isZero)\(', r'Goldilocks_\1('), (r'\bElement\b', 'GElement'),
+             (r'\(GElement &result, const GElement &in1\)', '(GElement *result_p, const GElement *in1_p) /* M2-ref: reference parameters become pointers; the names result / in1 stay usable through macros */'),
+             (r'Goldilocks_fromU64\(result, t\);', 'result = Goldilocks_fromU64(t);'),
              (r'cerr << [^;]*;', '/* diagnostic dropped */;'), (r'\br / newr\b', 'vf_udiv(r, newr)')]
     whole = cify.cify(f, 'goldilocks_base_field.cpp', 'Goldilocks::inv', 'Goldilocks_inv', [], extra_rules=rules)
     body, cond = cify.loop_body(whole, 0)
@@ -35,7 +36,7 @@ def filt_inv(repo_src, dst):
     frame = cify.cify(f, 'goldilocks_base_field.cpp', 'Goldilocks::inv', 'Goldilocks_inv', [], extra_rules=rules, cut_loops={0: 'vf_euclid_loop(&t, &r, &newt, &newr);'})
     step = 'static void inv_step(uint64_t *pt, uint64_t *pr, uint64_t *pnewt, uint64_t *pnewr)\n{ uint64_t t = *pt, r = *pr, newt = *pnewt, newr = *pnewr; GElement q, aux1, aux2;\n' + body + '\n*pt = t; *pr = r; *pnewt = newt; *pnewr = newr; }\n'
     f.note('M2-body', 'goldilocks_base_field.cpp', 1, 0, 0, 'Goldilocks::inv: while-body cut out as inv_step; whole loop outlined as vf_euclid_loop in the frame unit')
-    f.files = {'gen_inv.c': step + frame}
+    f.files = {'gen_inv.c': step + '#define result (*result_p)\n#define in1 (*in1_p)\n' + frame + '#undef result\n#undef in1\n'}
     return f
 GROUPS['invm2'] = Group('invm2', filt_inv, c=['props/C10/contracts_inv.c'], repo_cpp=[])
 S = 'src/goldilocks_base_field_scalar.hpp'
